@@ -55,7 +55,25 @@ impl<'n> TryFromNode<'n> for ComplexProps {
             }
         }
 
+        make_field_names_unique(&mut result.fields);
         Ok(result)
+    }
+}
+
+/// Distinct XML names can map to one Rust field name: an element and an attribute of one name
+/// (they live in separate symbol spaces), `userName` next to `user_name`, an own member spelled
+/// like an inherited one. The later ones get a numeric suffix; the wire name is unaffected.
+fn make_field_names_unique(fields: &mut [Field]) {
+    let mut taken: Vec<String> = Vec::with_capacity(fields.len());
+    for field in fields.iter_mut() {
+        let mut rust_name = field.rust_name.clone();
+        let mut n = 1;
+        while taken.contains(&rust_name) {
+            n += 1;
+            rust_name = format!("{}_{n}", field.rust_name);
+        }
+        field.rust_name.clone_from(&rust_name);
+        taken.push(rust_name);
     }
 }
 
